@@ -4,7 +4,19 @@ from harness.drivers import fuse
 
 def run(ck):
     q = ck.tier == "quick"
+    import itertools
+    from harness import gen
     progs = fuse.reshape_programs(ck.seed, 200 if q else 3000)
+    # routine level: the whole domain of the axis-matching routine (all shapes with <= 5 axes over {1,2,3,4,6}),
+    # quick: all shapes with <= 3 axes and a seeded tenth of the larger ones
+    shapes = [list(s) for n in range(1, 6) for s in itertools.product((1, 2, 3, 4, 6), repeat=n)]
+    rng = gen.rng_for(ck.seed, "c07shapes")
+    if q:
+        shapes = [s for s in shapes if len(s) <= 3] + rng.sample([s for s in shapes if len(s) > 3], 300)
+    ck.cov["routine_shapes"] = len(shapes)
+    ck.cov["exhaustive"] = not q
+    for k in range(0, len(shapes), 25):
+        progs.append({"driver": "reshapeargs", "tid": 500000 + k, "shapes": shapes[k:k + 25]})
     ck.cov["rule"] = ("random sparse abelian/fermionic arrays incl. unit axes of zero and non-zero charge; every target "
                       "is a merge of adjacent axes and/or drop of unit axes; reverse trip and same-shape identity")
     ck.conform(progs)
